@@ -320,6 +320,49 @@ class Normalizer:
         n, d = sp.fraction(sp.together(N))
         n = sp.expand(n)
         if n == 0: return True, n
+        # atoms whose definition mentions power atoms ("deep" atoms) hide relations between groups:
+        # unfold their integer powers (outside GP bases), and level the integer part of their GP exponents per class
+        for _ in range(8):
+            gps = list(n.atoms(GP)); tmp = {g: sp.Dummy('h%d' % i, positive=True) for i, g in enumerate(gps)}
+            m = n.xreplace(tmp)
+            deep = [a for a in m.free_symbols if a in self.defs and self.defs[a].has(GP)]
+            if deep:
+                m = m.xreplace({a: self.defs[a] for a in deep}).xreplace({v: k for k, v in tmp.items()})
+                n = sp.expand(sp.fraction(sp.together(m))[0])
+                if n == 0: return True, n
+                continue
+            deepb = {g.args[0] for g in gps if g.args[0] in self.defs and self.defs[g.args[0]].has(GP)}
+            if not deepb: break
+            terms = []
+            for term in sp.Add.make_args(n):
+                rest = sp.Integer(1); ex = {}
+                for f in sp.Mul.make_args(term):
+                    b, k = f.as_base_exp()
+                    if isinstance(b, GP) and k.is_Integer and b.args[0] in deepb:
+                        ex[b.args[0]] = ex.get(b.args[0], 0) + k * b.args[1]
+                    else: rest = rest * f
+                info = {}
+                for A, x in ex.items():
+                    x = sp.cancel(sp.together(x))
+                    if x == 0: continue
+                    c0, rep = self.split_exp(x)
+                    fl = sp.floor(c0); info[A] = (rep, c0 - fl, int(fl))
+                terms.append((rest, info))
+            mins = {}
+            for rest, info in terms:
+                for A, (rep, fr, fl) in info.items():
+                    key = (A, rep, fr); mins[key] = min(mins.get(key, fl), fl)
+            changed = False; new = sp.Integer(0)
+            for rest, info in terms:
+                tt = rest
+                for A, (rep, fr, fl) in info.items():
+                    m0 = mins[(A, rep, fr)]
+                    if fl > m0: changed = True
+                    tt = tt * GP(A, sp.cancel(rep + fr + m0)) * self.defs[A] ** (fl - m0)
+                new += tt
+            if not changed: break
+            n = sp.expand(sp.fraction(sp.together(new))[0])
+            if n == 0: return True, n
         # ---- split every term into polynomial coefficient and total exponent per base
         groups = {}
         for term in sp.Add.make_args(n):
